@@ -54,6 +54,10 @@ type search struct {
 	prep  []int // alphabet index of Prepare(v), -1 if absent
 	slice string
 	used  observed
+	// start state: ops[nAlpha:] are the letters of a scripted prefix (not part of the alphabet) that every explored
+	// sequence starts with; they run through the same model/real/twin code as explored letters.
+	nAlpha int
+	prefix []int
 }
 
 // taints: root-only deviations (oracle 2) found on the way to a state, inherited by its successors: a later root
@@ -75,6 +79,7 @@ var (
 	realOps    int64 // single operations executed on real instances (twins included)
 	getterEval int64 // instance-vs-model getter comparisons
 	rootEval   int64 // instance-vs-twin root comparisons
+	reloadEval int64 // reloaded-instance-vs-reloaded-twin getter comparisons
 )
 
 func (s *search) newModel() *mworld {
@@ -98,9 +103,15 @@ func (s *search) twin(eff []effRec) (*state.StateDB, *world) {
 		switch o.k {
 		case kIRoot:
 			st.IntermediateRoot(false)
-		case kCommit:
-			if _, err := w.commit(st); err != nil {
+		case kCommit, kCommitReset:
+			root, err := w.commit(st)
+			if err != nil {
 				panic("twin commit: " + err.Error())
+			}
+			if o.k == kCommitReset {
+				if err := st.Reset(root); err != nil {
+					panic("twin reset: " + err.Error())
+				}
 			}
 		default:
 			applyMut(st, o, e.arg)
@@ -119,6 +130,8 @@ func (s *search) exec(hist []int, verbose *strings.Builder) (out vk.Outcome) {
 		}
 	}()
 	actBefore := 0
+	explored := hist
+	hist = append(append(make([]int, 0, len(s.prefix)+len(explored)), s.prefix...), explored...)
 	args := make([]int, len(hist))
 	for i, oi := range hist {
 		o := s.ops[oi]
@@ -223,6 +236,21 @@ func (s *search) exec(hist []int, verbose *strings.Builder) (out vk.Outcome) {
 				fmt.Fprintf(verbose, "instance%d Commit root %x twin %x\n", i, r, t)
 			}
 		}
+		if r == t && which == "Commit root" && (s.mode != 2 || len(w.inst) == 1) {
+			// ---- oracle 2b: what a fresh StateDB opened on the committed root reads (reload after commit) ----
+			// (flat mode: one database under all instances, so only judged when there is a single instance)
+			rl, err1 := state.New(r, w.db)
+			rt, err2 := state.New(t, tww.db)
+			if err1 != nil || err2 != nil {
+				soft = append(soft, [2]string{"reload-error", fmt.Sprint(err1, err2)})
+				continue
+			}
+			atomic.AddInt64(&reloadEval, 1)
+			got, want := observe(rl, s.used), observe(rt, s.used)
+			if obs, det := diff(&got, &want); obs != "" {
+				soft = append(soft, [2]string{"reload-twin:" + obs, fmt.Sprintf("[%s] instance%d committed and re-opened at its root: %s (want = the re-opened untouched twin, lineage %s)", mode, i, det, s.effNames(m.inst[i].eff))})
+			}
+		}
 		if r != t {
 			f, det := rawDiff(w.inst[i], tw, shared[i])
 			if s.mode == 2 && m.inst[i].foreign {
@@ -312,6 +340,14 @@ func (s *search) execTagged(hist []int, verbose *strings.Builder) vk.Outcome {
 	return out
 }
 
+func (s *search) effNamesIdx(idx []int) []string {
+	l := []string{}
+	for _, i := range idx {
+		l = append(l, s.ops[i].name)
+	}
+	return l
+}
+
 func (s *search) effNames(eff []effRec) string {
 	var l []string
 	for _, e := range eff {
@@ -334,8 +370,17 @@ func (s *search) classify(m *mworld, i, actBefore int, last op, obs string, acct
 		// flat key-value mode: one database under all instances, another instance committed into it
 		return leakKey
 	}
+	if s.mode == 2 && last.k == kCommitReset && i == actBefore && acct >= 0 && obs == "storage" && m.inst[i].lostStor[acct] {
+		// flat mode, known root cause: the copy's storage change set started empty, the flushed-but-uncommitted slots
+		// of its source never reach the database through it; dropping the caches shows that on the copy itself
+		return "copy-differs-from-source:storage"
+	}
+	if last.k == kCommitReset && i == actBefore && acct >= 0 && m.inst[i].reset[acct] {
+		// same root cause as the copy form: the replaced account was never written, the reload shows the old one
+		return "copy-differs-from-source:account-replaced-by-CreateAccount-not-marked-dirty"
+	}
 	switch {
-	case i != actBefore && last.k == kCommit:
+	case i != actBefore && (last.k == kCommit || last.k == kCommitReset):
 		return leakKey
 	case i != actBefore && last.k == kIRoot:
 		return "copy-leak:intermediate-root-of-one-instance-visible-in-another"
@@ -363,12 +408,15 @@ func (s *search) spec() vk.Spec {
 	}
 	return vk.Spec{
 		Name:   s.name,
-		NumOps: len(s.ops),
+		NumOps: s.nAlpha,
 		OpName: func(i int) string { return s.ops[i].name },
 		Depth:  s.depth,
 		Exec:   func(hist []int) vk.Outcome { return s.execTagged(hist, nil) },
 		Enabled: func(hist []int, o int) bool {
 			m := s.newModel()
+			for _, oi := range s.prefix {
+				m.apply(s.ops[oi], oi)
+			}
 			for _, oi := range hist {
 				m.apply(s.ops[oi], oi)
 			}
@@ -429,6 +477,10 @@ func acctOps(a int, full bool) []op {
 			mk(kAddTok, a, -1, 0, 2),
 			mk(kSetCode, a, 0, 0, 2),
 			mk(kSetState, a, 0, 1, 1),
+			mk(kSetState, a, 0, 1, 0),
+			mk(kSetBal, a, 0, 0, 0),
+			mk(kSetNonce, a, 0, 0, 0),
+			mk(kSetCode, a, 0, 0, 0),
 		)
 	}
 	return out
@@ -443,24 +495,27 @@ func cat(l ...[]op) []op {
 }
 
 type slice struct {
-	name           string
-	ops            []op
-	quickD, thorD  int
-	quickOnlyModes []int // nil = all three modes
+	name          string
+	ops           []op
+	quickD, thorD int // depth from the empty start state
+	// depth from the prepared start states (committed / flushed / reloaded); 0 = not run from them
+	quickS, thorS int
 }
 
 func slices(quick bool) []slice {
 	A, B := 0, 1
 	global := []op{mk(kAddLog, 0, 0, 0, 0), mk(kAddRefund, 0, 0, 0, 2)}
 	prepare := []op{mk(kPrepare, 0, 0, 0, 1), mk(kPrepare, 0, 0, 0, 0)}
+	reset := []op{mk(kCommitReset, 0, 0, 0, 0)}
 	var out []slice
 	// the whole alphabet, shallow
 	if quick {
-		out = append(out, slice{name: "all-small", ops: cat(acctOps(A, false), []op{mk(kAddBal, B, 0, 0, 3), mk(kAddTok, B, 0, 0, 5), mk(kSuicide, B, 0, 0, 0)}, global, ctrl(2, true, 2)), quickD: 4})
+		out = append(out, slice{name: "all-small", ops: cat(acctOps(A, false), []op{mk(kAddBal, B, 0, 0, 3), mk(kAddTok, B, 0, 0, 5), mk(kSuicide, B, 0, 0, 0)}, global, ctrl(2, true, 2), reset), quickD: 4, quickS: 3})
 	} else {
-		out = append(out, slice{name: "all", ops: cat(acctOps(A, true), acctOps(B, true), global, prepare, ctrl(3, true, 3)), thorD: 4})
+		out = append(out, slice{name: "all", ops: cat(acctOps(A, true), acctOps(B, true), global, prepare, ctrl(3, true, 3), reset), thorD: 4, thorS: 3})
 	}
-	// focused alphabets, deeper
+	// focused alphabets, deeper. Every alphabet that writes a kind of value also has the letter that writes its
+	// zero (empty slot, balance/token back to 0, nonce 0, empty code).
 	out = append(out,
 		slice{name: "logs", ops: []op{
 			mk(kAddLog, 0, 0, 0, 0), mk(kCopySwitch, 0, 0, 0, 0), mk(kSwitch, 0, 0, 0, 0), mk(kSwitch, 0, 0, 0, 1), mk(kSnapshot, 0, 0, 0, 0), mk(kRevert, 0, 0, 0, 0)},
@@ -469,52 +524,136 @@ func slices(quick bool) []slice {
 			mk(kAddBal, A, 0, 0, 3), mk(kSuicide, A, 0, 0, 0), mk(kSnapshot, 0, 0, 0, 0), mk(kRevert, 0, 0, 0, 0), mk(kIRoot, 0, 0, 0, 0), mk(kCommit, 0, 0, 0, 0)},
 			quickD: 7, thorD: 10},
 		slice{name: "storage-code", ops: cat([]op{
-			mk(kSetState, A, 0, 0, 1), mk(kSetState, A, 0, 0, 2), mk(kSetState, A, 0, 0, 0), mk(kSetState, A, 0, 1, 1),
-			mk(kSetCode, A, 0, 0, 1), mk(kSuicide, A, 0, 0, 0), mk(kCreate, A, 0, 0, 0)},
-			ctrl(2, false, 2)), quickD: 5, thorD: 6},
+			mk(kSetState, A, 0, 0, 1), mk(kSetState, A, 0, 0, 2), mk(kSetState, A, 0, 0, 0), mk(kSetState, A, 0, 1, 1), mk(kSetState, A, 0, 1, 0),
+			mk(kSetCode, A, 0, 0, 1), mk(kSetCode, A, 0, 0, 0), mk(kSuicide, A, 0, 0, 0), mk(kCreate, A, 0, 0, 0)},
+			ctrl(2, false, 2)), quickD: 5, thorD: 6, quickS: 4, thorS: 6},
 		slice{name: "balance-nonce-logs-refund", ops: cat([]op{
-			mk(kAddBal, A, 0, 0, 3), mk(kAddBal, A, 0, 0, 0), mk(kSubBal, A, 0, 0, 3), mk(kSetNonce, A, 0, 0, 1),
+			mk(kAddBal, A, 0, 0, 3), mk(kAddBal, A, 0, 0, 0), mk(kSubBal, A, 0, 0, 3), mk(kSetNonce, A, 0, 0, 1), mk(kSetNonce, A, 0, 0, 0),
 			mk(kSuicide, A, 0, 0, 0)}, global, []op{mk(kPrepare, 0, 0, 0, 1)},
-			ctrl(2, false, 2)), quickD: 5, thorD: 6},
+			ctrl(2, false, 2)), quickD: 5, thorD: 6, quickS: 4, thorS: 5},
 		slice{name: "copies-of-copies", ops: cat([]op{
-			mk(kAddTok, A, 0, 0, 5), mk(kSetState, A, 0, 0, 1), mk(kAddBal, A, 0, 0, 3), mk(kAddLog, 0, 0, 0, 0), mk(kSuicide, A, 0, 0, 0)},
+			mk(kAddTok, A, 0, 0, 5), mk(kSetState, A, 0, 0, 1), mk(kSetState, A, 0, 0, 0), mk(kAddBal, A, 0, 0, 3), mk(kAddLog, 0, 0, 0, 0), mk(kSuicide, A, 0, 0, 0)},
 			[]op{mk(kSnapshot, 0, 0, 0, 0), mk(kRevert, 0, 0, 0, 0), mk(kCopySwitch, 0, 0, 0, 0), mk(kCopyStay, 0, 0, 0, 0),
 				mk(kSwitch, 0, 0, 0, 0), mk(kSwitch, 0, 0, 0, 1), mk(kSwitch, 0, 0, 0, 2), mk(kIRoot, 0, 0, 0, 0), mk(kCommit, 0, 0, 0, 0)}),
-			quickD: 5, thorD: 7},
+			quickD: 5, thorD: 7, quickS: 4, thorS: 5},
 		slice{name: "two-accounts", ops: cat([]op{
 			mk(kAddBal, A, 0, 0, 3), mk(kSubBal, A, 0, 0, 3), mk(kAddBal, B, 0, 0, 3), mk(kAddTok, A, 0, 0, 5), mk(kAddTok, B, 0, 0, 5),
 			mk(kSubTok, B, 0, 0, 5), mk(kSuicide, A, 0, 0, 0)},
-			ctrl(2, false, 2)), quickD: 5, thorD: 6},
+			ctrl(2, false, 2)), quickD: 5, thorD: 6, quickS: 4, thorS: 5},
 		// the largest search last: under a tight budget the deadline cuts here
 		slice{name: "tokens", ops: cat([]op{
 			mk(kAddTok, A, 0, 0, 5), mk(kSubTok, A, 0, 0, 5), mk(kAddTok, A, 1, 0, 5), mk(kSetTok, A, 0, 0, 0),
 			mk(kAddBal, A, 0, 0, 3), mk(kSuicide, A, 0, 0, 0), mk(kCreate, A, 0, 0, 0)},
-			ctrl(2, false, 2)), quickD: 6, thorD: 7},
+			ctrl(2, false, 2)), quickD: 5, thorD: 7, quickS: 4, thorS: 6},
 	)
 	return out
 }
 
+// Prepared start states. The content is derived from the alphabet: every (account, kind of value) the alphabet can
+// write already holds a non-zero value (balance 3, token T1 5, nonce 1, code1, every written slot val1), so that the
+// "clear a value that is already persisted, then snapshot / copy" sequences start at depth 1. The three states differ
+// in where that content lives:
+//
+//	committed  Commit: in the database AND in the instance's object caches
+//	flushed    IntermediateRoot: written into the tries (out of the pending sets), not committed
+//	reloaded   Commit+Reset: in the database only, every read comes from the committed trie
+var startNames = []string{"committed", "flushed", "reloaded"}
+
+func startPrefix(alpha []op, start string) []op {
+	var p []op
+	has := func(o op) bool {
+		for _, x := range p {
+			if x.name == o.name {
+				return true
+			}
+		}
+		return false
+	}
+	add := func(o op) {
+		if !has(o) {
+			p = append(p, o)
+		}
+	}
+	for _, o := range alpha {
+		switch o.k {
+		case kAddBal, kSubBal, kSetBal:
+			add(mk(kAddBal, o.a, 0, 0, 3))
+		case kAddTok, kSubTok, kSetTok:
+			if o.t >= 0 {
+				add(mk(kAddTok, o.a, 0, 0, 5))
+			} else {
+				add(mk(kAddBal, o.a, 0, 0, 3))
+			}
+		case kSetNonce:
+			add(mk(kSetNonce, o.a, 0, 0, 1))
+		case kSetCode:
+			add(mk(kSetCode, o.a, 0, 0, 1))
+		case kSetState:
+			add(mk(kSetState, o.a, 0, o.s, 1))
+		case kAddLog:
+			add(mk(kAddLog, 0, 0, 0, 0))
+		}
+	}
+	switch start {
+	case "committed":
+		p = append(p, mk(kCommit, 0, 0, 0, 0))
+	case "flushed":
+		p = append(p, mk(kIRoot, 0, 0, 0, 0))
+	case "reloaded":
+		p = append(p, mk(kCommitReset, 0, 0, 0, 0))
+	}
+	return p
+}
+
 func buildSearches(quick bool) []*search {
 	var out []*search
-	for _, sl := range slices(quick) {
-		d := sl.thorD
-		if quick {
-			d = sl.quickD
+	mkSearch := func(sl slice, start string, mode, depth int) *search {
+		name := sl.name
+		if start != "" {
+			name += "+" + start
 		}
-		if d == 0 {
-			continue
+		s := &search{name: name + "/" + modeNames[mode], slice: name, mode: mode, ops: sl.ops, nAlpha: len(sl.ops), depth: depth, prep: []int{-1, -1}}
+		if start != "" {
+			for _, o := range startPrefix(sl.ops, start) {
+				s.prefix = append(s.prefix, len(s.ops))
+				s.ops = append(s.ops[:len(s.ops):len(s.ops)], o)
+			}
+		}
+		for i, o := range s.ops {
+			switch o.k {
+			case kPrepare:
+				if i < s.nAlpha {
+					s.prep[o.v] = i
+				}
+			case kAddBal, kSubBal, kSetBal, kAddTok, kSubTok, kSetTok, kSetNonce, kSetCode, kSetState, kCreate, kSuicide:
+				s.used[o.a] = true
+			}
+		}
+		return s
+	}
+	for _, sl := range slices(quick) {
+		d, ds := sl.thorD, sl.thorS
+		if quick {
+			d, ds = sl.quickD, sl.quickS
 		}
 		for mode := range modeNames {
-			s := &search{name: sl.name + "/" + modeNames[mode], slice: sl.name, mode: mode, ops: sl.ops, depth: d, prep: []int{-1, -1}}
-			for i, o := range sl.ops {
-				switch o.k {
-				case kPrepare:
-					s.prep[o.v] = i
-				case kAddBal, kSubBal, kSetBal, kAddTok, kSubTok, kSetTok, kSetNonce, kSetCode, kSetState, kCreate, kSuicide:
-					s.used[o.a] = true
+			if d > 0 {
+				out = append(out, mkSearch(sl, "", mode, d))
+			}
+		}
+		if ds > 0 {
+			hasStorage := false
+			for _, o := range sl.ops {
+				hasStorage = hasStorage || o.k == kSetState
+			}
+			for _, st := range startNames {
+				if quick && st == "committed" && !hasStorage {
+					continue // quick tier: flushed + reloaded only (thorough runs all three)
+				}
+				for mode := range modeNames {
+					out = append(out, mkSearch(sl, st, mode, ds))
 				}
 			}
-			out = append(out, s)
 		}
 	}
 	return out
@@ -562,9 +701,9 @@ func main() {
 		states += res.States
 		trans += res.Transitions
 		merges += res.MergeChecks
-		per = append(per, map[string]interface{}{"search": s.name, "alphabet": len(s.ops), "depth": s.depth, "depth_completed": res.DepthCompleted,
+		per = append(per, map[string]interface{}{"search": s.name, "alphabet": s.nAlpha, "start_prefix": s.effNamesIdx(s.prefix), "depth": s.depth, "depth_completed": res.DepthCompleted,
 			"states": res.States, "transitions": res.Transitions, "per_depth": res.PerDepth, "merge_checks": res.MergeChecks, "capped": res.Capped})
-		fmt.Printf("%-40s alphabet=%d depth=%d/%d states=%d transitions=%d %.1fs\n", s.name, len(s.ops), res.DepthCompleted, s.depth, res.States, res.Transitions, time.Since(t0).Seconds())
+		fmt.Printf("%-40s alphabet=%d depth=%d/%d states=%d transitions=%d %.1fs\n", s.name, s.nAlpha, res.DepthCompleted, s.depth, res.States, res.Transitions, time.Since(t0).Seconds())
 	}
 	r.Set("searches", per)
 	r.Set("states", states)
@@ -574,7 +713,8 @@ func main() {
 	r.Set("real_operations_executed", int(atomic.LoadInt64(&realOps)))
 	r.Set("getter_comparisons", int(atomic.LoadInt64(&getterEval)))
 	r.Set("root_comparisons_with_twin", int(atomic.LoadInt64(&rootEval)))
-	r.Set("evaluations", int(atomic.LoadInt64(&getterEval)+atomic.LoadInt64(&rootEval)))
+	r.Set("reload_comparisons_with_twin", int(atomic.LoadInt64(&reloadEval)))
+	r.Set("evaluations", int(atomic.LoadInt64(&getterEval)+atomic.LoadInt64(&rootEval)+atomic.LoadInt64(&reloadEval)))
 	r.Set("distinct_nontrivial", states)
 	r.Set("state_key_merge_checks", merges)
 	r.Set("rule", "BFS over op sequences on real state.StateDB worlds (original + up to 2 copies, up to 3 open snapshots each) in 3 database modes; "+
